@@ -249,6 +249,37 @@ func ruleReattach(c *Ctx) {
 			}
 			return true
 		})
+		if !okAsIs {
+			// a field-by-field copy of the configuration the client was given: the
+			// fields that decide how the plugin is reached and whether it may be
+			// killed (Pid, ReattachFunc, Test) are each copied from the same field
+			copied := map[string]bool{}
+			ast.Inspect(rc.Body, func(x ast.Node) bool {
+				as, ok := x.(*ast.AssignStmt)
+				if !ok || len(as.Lhs) != len(as.Rhs) {
+					return true
+				}
+				for i, l := range as.Lhs {
+					lf := SelField(rinfo, l)
+					rse, isSel := ast.Unparen(as.Rhs[i]).(*ast.SelectorExpr)
+					if lf == nil || !isSel || !strings.HasPrefix(p.FieldName(lf), "ReattachConfig.") {
+						continue
+					}
+					rf := SelField(rinfo, rse)
+					if rf != lf {
+						continue
+					}
+					if base := SelField(rinfo, ast.Unparen(rse.X)); base != nil && p.FieldName(base) == "ClientConfig.Reattach" {
+						copied[lf.Name()] = true
+					}
+				}
+				return true
+			})
+			if copied["Pid"] && copied["ReattachFunc"] && copied["Test"] {
+				okAsIs = true
+				okPid = true
+			}
+		}
 		if okLit && okPid && okAsIs {
 			c.R.Hold("R-REATTACH", p.Pos(rc.Node()), rc.Name, "reattach config reports what was negotiated", "Protocol and Addr are the client's, Pid the launched process's; an existing reattach config is returned as is", true)
 		} else {
